@@ -62,6 +62,8 @@ struct C<'a> {
     server_silent: bool,
     arp_answer: bool,
     polled_exactly: bool,
+    /// no late poll happened since the current lease was bound
+    exact_since_bound: bool,
     /// server frames damaged after checksumming (UDP checksum provably wrong): must be equivalent to no frame
     damaged: Vec<Vec<u8>>,
     idle: u32,
@@ -189,6 +191,7 @@ pub fn run(tape: &mut Tape, props: Props, thorough: bool, trace_on: bool) -> Out
         server_silent: false,
         arp_answer: true,
         polled_exactly: true,
+        exact_since_bound: true,
         damaged: vec![],
         idle: 0,
         start_us: now,
@@ -271,6 +274,7 @@ fn poll(c: &mut C) -> Result<(), Violation> {
                 c.renew_seen = None;
                 c.rebind_seen = None;
                 c.bound_at = Some(c.now);
+                c.exact_since_bound = c.polled_exactly;
                 c.stats.inc("dhcp.valid-acks-ingested");
                 ingested_valid_now = true;
             }
@@ -356,6 +360,17 @@ fn poll(c: &mut C) -> Result<(), Violation> {
         Some(None) => {
             c.log(|| "event: Deconfigured".into());
             c.stats.inc("dhcp.deconfigured-events");
+            // (3b) a lease that simply ran out must have seen at least one renewal attempt (unicast or broadcast
+            // REQUEST, or the ARP request that precedes the unicast one) - judged for plain ACKs with default
+            // timers, leases of at least 4 s and a node polled per poll_at ever since it was bound
+            if c.props.has("C18") && c.configured.is_some() && c.exact_since_bound && c.all_plain {
+                if let (Some(b), Some(dl)) = (c.bound_at, c.deadline_strict) {
+                    let default_timers = c.acks.last().map(|a| a.1.default_timers).unwrap_or(false);
+                    if c.now >= dl && dl - b >= 4_000_000 && default_timers && c.renew_seen.is_none() && c.rebind_seen.is_none() {
+                        return Err(viol("C18", "renew-before-rebind", "C18.order/lease-expired-without-any-renewal-attempt", format!("the lease bound at {} us ran out at {} us ({} us) without a single renewing or rebinding REQUEST", b, dl, dl - b)));
+                    }
+                }
+            }
             c.configured = None;
             c.acks.clear();
             c.deadline_relaxed = None;
@@ -754,6 +769,7 @@ fn body(c: &mut C, thorough: bool) -> Result<(), Violation> {
         if c.tape.draw(12) == 0 {
             next += *c.tape.pick(&[1_000i64, 500_000, 5_000_000, 120_000_000, 86_400_000_000]);
             c.polled_exactly = false;
+            c.exact_since_bound = false;
             // the soliciting-gap clause only speaks about nodes polled per poll_at
             c.last_client_tx = None;
             c.stats.inc("sched.late-poll");
